@@ -949,7 +949,7 @@ impl Engine for EnvSim {
                     env_ev(rng, &mut tl, faulty);
                 }
             }
-            if rng.chance(1, 6) {
+            if rng.chance(1, 4) {
                 tl.push(Ev::Recover(gen_intent(rng, &spec, false), rng.below(3) as u8));
             } else {
                 tl.push(Ev::Parse(gen_intent(rng, &spec, faulty)));
